@@ -186,6 +186,7 @@ class World:
         pj = s.ri_whfast._p_jh
         for i in range(s.N):
             pj[i].ax = pj[i].ay = pj[i].az = 0.0
+            pj[i].m = 0.0
 
     # -- the executor of primitive-call lists
     def execute(self, s, prims, st):
@@ -773,10 +774,11 @@ def search(c, W):
     cfgs = integrator_configs(rng0, c.thorough)
     tmpdir = tempfile.mkdtemp(prefix="c09.", dir=os.environ.get("VERIF_TMP", "/tmp"))
     common._scratch.append(tmpdir)
-    nsys = 8 if c.thorough else 1
+    nsys = 20 if c.thorough else 1
     nsteps_bit = 40 if c.thorough else 20
     nsteps_phys = 500 if c.thorough else 150
     worst = {}
+    worst_early = {}
     eos_ratio = {}
     for label, integ, mk, has_keep in cfgs:
         for isys in range(nsys):
@@ -845,38 +847,44 @@ def search(c, W):
             A = W.sim(system, integ, mk("safe"))
             B = W.sim(system, integ, mk("unsafe"))
             syncs = []
+            err_early = None
+            n_early = 50
+
+            def reldiff(ca, cb):
+                sx = max(abs(v) for p in ca for v in p[:3])
+                sv = max(abs(v) for p in ca for v in p[3:])
+                return max(max(abs(a[k] - b[k]) / (sx if k < 3 else sv) for k in range(6)) for a, b in zip(ca, cb)), sx, sv
+
             for k in range(nsteps_phys):
                 W.lib.reb_simulation_step(ctypes.byref(A))
                 W.lib.reb_simulation_step(ctypes.byref(B))
-                if rng.chance(0.03):
+                if rng.chance(0.03) or k == n_early - 1:
                     W.lib.reb_simulation_synchronize(ctypes.byref(B))
                     syncs.append(k)
+                if k == n_early - 1:
+                    err_early = reldiff(coords(W, A), coords(W, B))[0]
             W.lib.reb_simulation_synchronize(ctypes.byref(B))
             ca, cb = coords(W, A), coords(W, B)
-            scale_x = max(abs(v) for p in ca for v in p[:3])
-            scale_v = max(abs(v) for p in ca for v in p[3:])
-            err = max(max(abs(a[k] - b[k]) / (scale_x if k < 3 else scale_v) for k in range(6)) for a, b in zip(ca, cb))
+            err, scale_x, scale_v = reldiff(ca, cb)
             c.count(("phys", label, isys))
-            fam = label.split()[0]
+            fam = label.split()[0] + ("+corrector2" if "c2=1" in label else "")
             if integ != "eos":
                 worst[fam] = max(worst.get(fam, 0.0), err)
                 worst[label] = max(worst.get(label, 0.0), err)
-                chaos = None
-                if not err <= 1e-10:
-                    # is the system so chaotic that a last-bit perturbation grows to this size?
-                    sp = dict(system)
-                    sp["particles"] = [p if i != 1 else (p[0], p[1] * (1 + 2.0 ** -50)) + tuple(p[2:]) for i, p in enumerate(system["particles"])]
-                    Ap = W.sim(sp, integ, mk("safe"))
-                    for k in range(nsteps_phys):
-                        W.lib.reb_simulation_step(ctypes.byref(Ap))
-                    cp = coords(W, Ap)
-                    chaos = max(max(abs(a[k] - b[k]) / (scale_x if k < 3 else scale_v) for k in range(6)) for a, b in zip(ca, cp))
-                    c.cov.setdefault("chaos_controls", []).append({"label": label, "difference": err, "last_bit_perturbation_grows_to": chaos})
-                if not err <= 1e-10 and not err <= 1e4 * chaos:
-                    c.violation("F18:whfast-corrector2-not-inverse" if is_c2 else "safe-unsafe:" + fam, "%s: unsafe mode + final synchronize differs from safe mode by %.3g relative after %d steps"
+                worst_early[fam] = max(worst_early.get(fam, 0.0), err_early)
+                # a defect adds a systematic error per step (linear / quadratic growth): visible after 50
+                # steps, before chaos can amplify rounding errors; at the end of the run a difference only
+                # counts if it did not grow exponentially from the early one
+                growth = err / max(err_early, 1e-16)
+                chaotic = growth > 100. * (nsteps_phys / float(n_early)) ** 3
+                if err > 1e-10 and chaotic:
+                    c.cov["inconclusive_chaotic_runs"] = c.cov.get("inconclusive_chaotic_runs", 0) + 1
+                if not err_early <= 1e-11 or (not err <= 1e-10 and not chaotic):
+                    c.violation("F18:whfast-corrector2-not-inverse" if is_c2 else "safe-unsafe:" + label.split()[0], "%s: unsafe mode + final synchronize differs from safe mode by %.3g relative after %d steps"
                                 % (label, err, nsteps_phys),
                                 {"integrator": integ, "label": label, "system": system, "steps": nsteps_phys,
-                                 "intermediate_syncs_after_step": syncs, "relative_difference": err})
+                                 "intermediate_syncs_after_step": syncs, "relative_difference": err,
+                                 "relative_difference_after_50_steps": err_early})
             else:
                 # the scheme's own truncation error at this dt: safe mode at dt vs dt/2
                 h = dict(system)
@@ -889,12 +897,13 @@ def search(c, W):
                 ratio = err / max(trunc, 1e-13)
                 eos_ratio[label] = max(eos_ratio.get(label, 0.0), ratio)
                 worst[label] = max(worst.get(label, 0.0), err)
-                if not err <= 10 * max(trunc, 1e-13):
+                if not err <= 10 * trunc + 1e-10:      # truncation class + the rounding allowance of the others
                     c.violation("safe-unsafe:eos", "%s: unsafe+synchronize differs from safe mode by %.3g, more than 10x the scheme's truncation error %.3g"
                                 % (label, err, trunc),
                                 {"integrator": integ, "label": label, "system": system, "steps": nsteps_phys,
                                  "intermediate_syncs_after_step": syncs, "relative_difference": err, "truncation_error": trunc})
     c.cov["safe_vs_unsafe_worst_relative_difference"] = {k: float("%.3g" % v) for k, v in sorted(worst.items())}
+    c.cov["safe_vs_unsafe_worst_relative_difference_after_50_steps"] = {k: float("%.3g" % v) for k, v in sorted(worst_early.items())}
     c.cov["eos_difference_over_truncation_error"] = {k: float("%.3g" % v) for k, v in sorted(eos_ratio.items())}
     c.cov["search_configurations"] = len(cfgs)
 
@@ -921,9 +930,9 @@ def run(c):
                       "WHFast512 is not compiled on this host (no AVX512): not covered",
                       "variational particles / MEGNO, additional forces, collisions are outside the model"]
     footprints(c, W, exe)
-    replay(c, W, exe, 2000 if c.thorough else 60, "whfast")
-    replay(c, W, exe, 1200 if c.thorough else 40, "saba")
-    replay_mercurius(c, W, exe, 800 if c.thorough else 30)
+    replay(c, W, exe, 8000 if c.thorough else 60, "whfast")
+    replay(c, W, exe, 5000 if c.thorough else 40, "saba")
+    replay_mercurius(c, W, exe, 3000 if c.thorough else 30)
     probe_first_call(c, d)
     search(c, W)
 
